@@ -58,6 +58,47 @@ func init() {
 			return []Value{{T: tFloat64, S: sx("fp.roundToIntegral", rm, args[0].S)}}
 		}}
 	}
+	// reflect.ValueOf(x) remembers x; Comparable/IsValid are decided on the dynamic type class
+	stdModels["reflect.ValueOf"] = stdModel{pure: true, f: func(v *FnV, st *State, call *ast.CallExpr, recv *Value, args []Value) []Value {
+		rt := v.resultTypes(call)[0]
+		rv := st.freshVal("reflectvalue", rt)
+		srt := v.c.sortOf(rt)
+		v.c.glob("rvorig", fmt.Sprintf("(declare-fun rvorig (%s) Val)", srt))
+		st.assume(sEq(sx("rvorig", rv.S), args[0].S))
+		return []Value{rv}
+	}}
+	// reflect.Type values are pointers to runtime type descriptors: comparable
+	typeModel := stdModel{pure: true, f: func(v *FnV, st *State, call *ast.CallExpr, recv *Value, args []Value) []Value {
+		rt := v.resultTypes(call)[0]
+		id := st.freshVal("rtype", tInt)
+		st.assume(sLt("0", id.S))
+		return []Value{{T: rt, S: fmt.Sprintf("(mkval %d %s fpzero emptystr false)", v.c.tagOf(sentinelType), id.S)}}
+	}}
+	stdModels["reflect.Value.Type"] = typeModel
+	stdModels["reflect.TypeOf"] = typeModel
+	stdModels["reflect.Value.IsValid"] = stdModel{pure: true, f: func(v *FnV, st *State, call *ast.CallExpr, recv *Value, args []Value) []Value {
+		v.c.glob("rvorig", fmt.Sprintf("(declare-fun rvorig (%s) Val)", v.c.sortOf(recv.T)))
+		return []Value{{T: tBool, S: sNot(sEq(sx("vtag", sx("rvorig", recv.S)), "0"))}}
+	}}
+	stdModels["reflect.Value.Comparable"] = stdModel{pure: true, f: func(v *FnV, st *State, call *ast.CallExpr, recv *Value, args []Value) []Value {
+		v.c.glob("rvorig", fmt.Sprintf("(declare-fun rvorig (%s) Val)", v.c.sortOf(recv.T)))
+		v.c.trusted["reflect.Value.Comparable modelled on the dynamic type class (slice/map/func and structs containing them are uncomparable)"] = true
+		return []Value{{T: tBool, S: sNot(sEq(sx("tagclass", sx("vtag", sx("rvorig", recv.S))), fmt.Sprint(clsUncmp)))}}
+	}}
+	// io: Read reports 0 <= n <= len(p) (io.Reader contract)
+	readModel := stdModel{pure: false, f: func(v *FnV, st *State, call *ast.CallExpr, recv *Value, args []Value) []Value {
+		rts := v.resultTypes(call)
+		n := st.freshVal("nread", tInt)
+		st.assume(sAnd(sLe("0", n.S), sLe(n.S, sx("sllen", args[0].S))))
+		// the buffer contents change
+		if sl, ok := args[0].T.Underlying().(*types.Slice); ok {
+			name, _ := v.elemHeap(st, sl.Elem())
+			st.havocHeap(name)
+		}
+		return []Value{n, st.freshVal("readerr", rts[1])}
+	}}
+	stdModels["os.File.Read"] = readModel
+	stdModels["io.Reader.Read"] = readModel
 	stdModels["sort.Search"] = stdModel{pure: true, f: func(v *FnV, st *State, call *ast.CallExpr, recv *Value, args []Value) []Value {
 		// the predicate closure is not executed; only the documented range of the result is used
 		r := st.freshVal("search", tInt)
@@ -68,7 +109,8 @@ func init() {
 		s, n := args[0].S, args[1].S
 		v.safety(st, "call:Repeat", call, sGe(n, "0"), "strings.Repeat: count must be non-negative")
 		if !v.c.bv {
-			v.safety(st, "call:Repeat", call, sLe(sx("*", sx("slen", s), n), "4611686018427387904"), "strings.Repeat: result length must not overflow")
+			v.safety(st, "call:Repeat", call, sLe(sx("*", sx("slen", s), n), "9223372036854775807"), "strings.Repeat: result length must not overflow int")
+			v.oblige(st, "alloc:Repeat", call, v.fr().ord[call], sLe(sx("*", sx("slen", s), n), "281474976710656"), "strings.Repeat: result length is allocatable (<= 2^48; larger sizes panic in makeslice)")
 		}
 		rb := v.c.freshName("repb")
 		st.declare(rb, "(Array Int Int)")
@@ -155,8 +197,16 @@ func init() {
 		if n, ok := litInt(c); ok && n.IsInt64() && n.Int64() >= 0 && n.Int64() < 128 {
 			return stdModels["strings.IndexByte"].f(v, st, call, recv, args)
 		}
+		v.c.utf8Fns()
 		r := st.freshVal("indexrune", tInt)
 		st.assume(sAnd(sLe("(- 1)", r.S), sLt(r.S, sx("slen", s))))
+		// documented: a valid rune is found as its encoding; utf8.RuneError finds the first
+		// invalid byte (decoded size 1) or an encoded U+FFFD
+		valid := sAnd(sLe("0", c), sLe(c, "1114111"), sNot(sx("surrogate", c)), sNot(sEq(c, "65533")))
+		found := sGe(r.S, "0")
+		st.assume(sImp(found, v.c.utf8Facts(s, r.S)))
+		st.assume(sImp(sAnd(found, valid), sAnd(sEq(sx("dr", s, r.S), c), sEq(sx("dz", s, r.S), sx("rl", c)))))
+		st.assume(sImp(sAnd(found, sNot(valid)), sEq(sx("dr", s, r.S), "65533")))
 		return []Value{r}
 	})
 	reg("strings.ContainsRune", true, func(v *FnV, st *State, call *ast.CallExpr, recv *Value, args []Value) []Value {
